@@ -14,8 +14,8 @@ EXPLANATION = (
     "rejects invalid values with a command_line_error (R2); --pika:ini entries are merged before any handler runs and "
     "every resolved value is written back after its handler (R3); PIKA_COMMANDLINE_OPTIONS tokens are placed before "
     "the real arguments, the preliminary parse and handle_arguments precede the reconfiguration (R4). Not decided: "
-    "that the running runtime uses the resolved value beyond key spelling; precedence inside program_options when an "
-    "option occurs both in PIKA_COMMANDLINE_OPTIONS and on the command line.")
+    "that every consumer of a resolved value reads the written-back key (only the worker count - R7 - and the scheduler "
+    "name - R8 - are followed to their consumer).")
 ASSUMPTIONS = ["program_options::variables_map::count(k) > 0 iff option k was given", "${ENV:default} placeholders in the default ini are expanded by the ini module from the environment"]
 THOROUGH_CONFIGS = [["-UNDEBUG", "-DPIKA_DEBUG"]]
 FLOORS = {"C16.R1": 11, "C16.R2": 10, "C16.R3": 8, "C16.R4": 3, "C16.R6": 1, "C16.R7": 1, "C16.R8": 1, "C16.R9": 8, "C16.R10": 1}
